@@ -5,8 +5,12 @@ Proof   : lean/PsV/Props/C18.lean — theorems about the wrapper table and life-
           C18_no_exception_escapes, C18_wrapper_faithful (+ status/pointer/value corollaries), C18_null_guard_fails,
           C18_handles_balanced / C18_ledger_tracks_handles (unbounded induction over op sequences).
 Tie     : harness/c18_harness.cpp runs random op sequences (<= 30 ops, 1..3 handles) through the C API and, call by
-          call, through the C++ API on a twin object; `psvdriver C18` predicts the C return class of every call from
-          the twin's outcome (wrapRet on the generated table) and the handle/ledger state (step on the generated facts).
+          call, through the C++ API on a twin object; `psvdriver C18` runs the C machine of C18_refines (cstep: wrapRet /
+          guardRet / oomRet on the generated table, pointers and ledger on the generated facts) with the twin's outcome
+          and object digest as the semantics of the C++ operation, and predicts the C return class, the object behind the
+          handle (digest), the ledger, and whether the wrapper can request heap storage at all.  The harness replaces
+          operator new: it counts the requests of every call (C side and twin) and makes the k-th one throw
+          std::bad_alloc on request (`A:<k>`).
 Oracle  : (independent of the model) return != 0 / NULL  <=>  the C++ call threw / returned false / could not be made;
           values and object digests bit-identical; once the script has released every handle and result (the harness
           counts what is still held) the C side retains no heap at all (ASan allocator statistics; a retention that the
@@ -34,6 +38,12 @@ NULLTOK = {"table": "table", "path": "path", "key": "key", "result": "result", "
            "buffer->data": "data", "data": "data", "knots": "knots"}
 GOOD = ["t0", "t1", "t2", "t3", "t4"]
 MAXSLOT = 4
+# ops whose wrapper (or the C++ operation behind it) requests heap storage through operator new: candidates for an
+# injected std::bad_alloc (`A:<k>`: the k-th request inside the call throws, on the C side and on the twin's side)
+INJECTABLE = {"init", "readfile", "readmem", "writefile", "writemem", "readkey", "writekey", "glamfit", "grideval", "permute", "convolve", "grad"}
+# wrappers whose first heap request (if they make one) is their own, not the C++ operation's
+OWN_FIRST_REQUEST = {"readfile", "writefile", "glamfit", "grideval", "permute"}
+INJECT_AT = [0, 0, 0, 1, 1, 2, 2, 3, 4, 5, 7, 10, 14, 20, 27, 40, 90, 250]
 
 
 def empty_grideval_defined():
@@ -59,8 +69,9 @@ class SeqGen:
     ("valid handles": value wrappers and the wrappers without a `table->data` guard only see handles with an object,
     evaluation only sees loaded tables, init only sees a handle that owns nothing)."""
 
-    def __init__(self, rnd, side, stats, empty_grideval=False):
+    def __init__(self, rnd, side, stats, empty_grideval=False, inject_rate=0.09):
         self.r, self.side, self.stats, self.empty_grideval = rnd, side["wrappers"], stats, empty_grideval
+        self.inject_rate = inject_rate
 
     def checks_data(self, op):
         return "table->data" in self.side[WRAPPER_OF[op]]["nullChecked"]
@@ -98,6 +109,18 @@ class SeqGen:
                     line += " N:" + r.choice(choices)
                     ops.append(line); self.stats["null_argument_calls"] = self.stats.get("null_argument_calls", 0) + 1
                     continue
+            if words[0] in INJECTABLE and s != "unknown" and r.random() < self.inject_rate:
+                # allocation failure inside the call: whether the k-th request exists (and so whether the call fails) is not
+                # known here, so the handle's state is unknown afterwards: only calls that are defined in every state follow
+                # until a free / readsplinefitstable re-establishes it; a result slot that may have been filled is kept for
+                # the clean-up (ndsparse_destroy of a NULL result is defined)
+                line += " A:%d" % r.choice(INJECT_AT)
+                self.stats["injected_calls"] = self.stats.get("injected_calls", 0) + 1
+                if words[0] == "grideval": slots[int(words[2])] = True
+                if words[0] not in ("grad", "readkey", "writefile", "writemem", "grideval"):   # (these cannot change the object)
+                    st[h] = "unknown"; info[h] = {}
+                ops.append(line)
+                continue
             self.apply(words, h, st, info, slots)
             ops.append(line)
         for k in range(MAXSLOT):
@@ -110,6 +133,11 @@ class SeqGen:
         if s == "null":
             c += [("init", 5), ("readfile", 5), ("readmem", 4), ("free", 1)]
             c += [(o, 1) for o in ("getkey", "readkey", "writekey", "glamfit", "grideval", "convolve") if self.checks_data(o)]
+        elif s == "unknown":
+            # after an injected allocation failure: null, empty or loaded.  Defined in all three: free, the file reader
+            # (frees what is there), and the wrappers that test table->data and whose C++ operation is defined on an
+            # object without data
+            c += [("free", 4), ("readfile", 4), ("getkey", 1), ("readkey", 1), ("writekey", 1), ("convolve", 0.5)]
         elif s == "empty":
             c += [("readmem", 5), ("readfile", 3), ("glamfit", 5), ("free", 2), ("writefile", 1), ("writemem", 1), ("getkey", 1), ("readkey", 1),
                   ("get_ndim", 1), ("writekey", 0.5), ("permute", 0.5), ("convolve", 0.7)]
@@ -150,6 +178,7 @@ class SeqGen:
         if op == "permute": return "permute %d %s %d" % (h, r.choice(["valid", "valid", "dup", "big"]), seed)
         if op == "convolve":
             if s == "loaded" and inf.get("conv", 0) >= 2: return None
+            if s == "unknown": return "convolve %d %s %d" % (h, r.choice(["baddim", "negdim", "nokernel"]), seed)
             return "convolve %d %s %d" % (h, r.choice(["valid", "valid", "valid", "huge", "baddim", "negdim", "nokernel"]), seed)
         raise KeyError(op)
 
@@ -176,6 +205,39 @@ class SeqGen:
             if s == "loaded" and w[2] == "valid": info[h]["conv"] = info[h].get("conv", 0) + 1
 
 
+# Every failure position of one heap request inside one call, one position per (short) sequence: set-up, the call with
+# `A:<k>`, clean-up.  (set-up ops, op, positions); the number of requests a call makes is not known here — positions
+# beyond it simply do not fire.
+SWEEP = [
+    ([], "init 0", range(0, 2)),
+    ([], "readfile 0 t1", range(0, 34)), ([], "readfile 0 t3", range(0, 34, 3)),
+    ([], "readmem 0 t2", range(0, 34)), (["init 0"], "readmem 0 t0", range(0, 34, 2)),
+    (["readfile 0 t1"], "permute 0 valid %(seed)d", range(0, 22)), (["readfile 0 t2"], "permute 0 valid %(seed)d", range(0, 22)),
+    (["readfile 0 t0"], "permute 0 valid %(seed)d", range(0, 22)),
+    (["readfile 0 t1"], "convolve 0 valid %(seed)d", list(range(0, 40)) + list(range(40, 340, 7))),
+    (["readfile 0 t0"], "convolve 0 valid %(seed)d", list(range(0, 40)) + list(range(40, 200, 7))),
+    (["init 0"], "glamfit 0 good1 %(seed)d", range(0, 20)), (["init 0"], "glamfit 0 good2 %(seed)d", range(0, 20)),
+    (["readfile 0 t1"], "grideval 0 0 %(seed)d", range(0, 6)), (["readfile 0 t4"], "grideval 0 0 %(seed)d", range(0, 6)),
+    (["readfile 0 t1"], "writekey 0 i NEWKEY0 5", range(0, 7)), (["readfile 0 t1"], "writekey 0 d longlowercasekey 5", range(0, 7)),
+    (["readfile 0 t1"], "writekey 0 i INTKEY 7", range(0, 7)),
+    (["readfile 0 t1"], "readkey 0 d longlowercasekey", range(0, 3)),
+    (["readfile 0 t1"], "writefile 0 ok", range(0, 5)), (["readfile 0 t2"], "writemem 0", range(0, 6)),
+    (["readfile 0 t3"], "grad 0 in %(seed)d", range(0, 4)),
+]
+
+
+def sweep_sequences(rnd):
+    seqs = []
+    for setup, op, ks in SWEEP:
+        seed = rnd.randrange(1, 1 << 30)
+        for k in ks:
+            ops = list(setup) + [(op % {"seed": seed}) + " A:%d" % k]
+            if op.startswith("grideval"): ops.append("nddestroy 0")
+            ops.append("free 0")
+            seqs.append({"id": "w%d" % len(seqs), "nh": 1, "ops": ops})
+    return seqs
+
+
 def write_script(path, seed, seqs):
     with open(path, "w") as f:
         f.write("FIX %d\n" % seed)
@@ -186,7 +248,7 @@ def write_script(path, seed, seqs):
 
 
 # ---------------------------------------------------------------------------------------------- running + parsing
-RLINE = re.compile(r"^R (\S+) (\d+) (\S+) C (.*?) \| T (.*?) \| (-?\d+) (-?\d+)$")
+RLINE = re.compile(r"^R (\S+) (\d+) (\S+) C (.*?) \| T (.*?) \| (-?\d+) (-?\d+) \| aC=(\d+):(\d):([0-9a-f]+) aT=(\d+):(\d):([0-9a-f]+)$")
 
 
 def split_res(txt):
@@ -225,7 +287,8 @@ def run_harness(ctx, exe, seqs, tag, timeout):
                 m = RLINE.match(l)
                 if not m: results[cur_id]["ops"][int(l.split()[2])] = {"bad": l}; continue
                 cs, cv, cdg = split_res(m.group(4)); ts, tv, tdg = split_res(m.group(5))
-                results[cur_id]["ops"][int(m.group(2))] = {"cs": cs, "cv": cv, "cdg": cdg, "ts": ts, "tv": tv, "tdg": tdg, "dC": int(m.group(6)), "dT": int(m.group(7)), "raw": l}
+                results[cur_id]["ops"][int(m.group(2))] = {"cs": cs, "cv": cv, "cdg": cdg, "ts": ts, "tv": tv, "tdg": tdg, "dC": int(m.group(6)), "dT": int(m.group(7)),
+                                                           "aC": (int(m.group(8)), int(m.group(9)), m.group(10)), "aT": (int(m.group(11)), int(m.group(12)), m.group(13)), "raw": l}
             elif l.startswith("E "):
                 w = l.split(); kv = dict(x.split("=") for x in w[2:])
                 results[cur_id]["end"] = {"sumC": int(kv["sumC"]), "sumT": int(kv["sumT"]), "liveH": int(kv["liveH"]), "liveR": int(kv["liveR"]), "lsan_bytes": lsan.get(w[1], 0)}
@@ -264,7 +327,11 @@ def driver_lines(seq, res):
                 tok = nulls[0]
                 nullparam = "buffer->data" if tok == "occupied" or (tok == "data" and kind == "readmem") else inv.get(tok, tok)
             else: nullparam = "table->data"
-        lines.append("OP %s %s %d %d %d %s %s" % (kind, wname, h, slot, sel, nullparam, r["ts"]))
+        outcome = "allocfail" if (kind == "readmem" and r["ts"] == "throw" and "noobj" in r["tv"].split()) else r["ts"]
+        # the injected failure hit the very first request of the call, and that request is the wrapper's own (a temporary
+        # string, a helper container, the object itself): the C++ operation was never reached
+        oom = 1 if (r["aC"][1] == 1 and r["aC"][0] == 0 and kind in OWN_FIRST_REQUEST and r["ts"] == "throw") else 0
+        lines.append("OP %s %s %d %d %d %s %s %s %d" % (kind, wname, h, slot, sel, nullparam, outcome, r["tdg"] or "-", oom))
         idx.append(i)
     lines.append("END")
     return lines, idx
@@ -303,12 +370,21 @@ def judge(seq, res, pred, pidx, pend):
         # ---- model prediction
         p = pmap.get(i)
         if p is None: tie.append("no model line for op %d (%s)" % (i, o)); continue
-        m = re.match(r"P (\S+) valid=(\d) h=(\S+)", p)
+        m = re.match(r"P (\S+) valid=(\d) h=(\S+) af=(\d)", p)
         if not m: tie.append("driver: %s" % p); continue
         if m.group(1) != cs: tie.append("model predicts %s for %s (twin %s), C returned %s" % (m.group(1), wname, ts, cs))
-        if m.group(2) != "1": tie.append("model: op %d (%s) violates the usage rule" % (i, o))
-        if w[0] != "nddestroy" and (m.group(3) == "null") != (r["cdg"] == "null"):
-            tie.append("model handle state %s but C handle digest %s after %s" % (m.group(3), r["cdg"], o))
+        if m.group(2) != "1": tie.append("model: op %d (%s) is outside the defined scope (cDefined)" % (i, o))
+        if w[0] != "nddestroy" and m.group(3) != r["cdg"]:
+            tie.append("model: object behind the handle %s, C handle digest %s after %s" % (m.group(3), r["cdg"], o))
+        # ---- heap requests (operator new) inside the call
+        aC, aT = r["aC"], r["aT"]
+        if m.group(4) == "1" and (aC[0] or aT[0] or aC[1] or aT[1]):
+            tie.append("the model classifies every call of %s as unable to throw (no heap request), but the C call made %d request(s), the C++ call %d" % (wname, aC[0] + aC[1], aT[0] + aT[1]))
+        if aC[1] != aT[1]:
+            tie.append("injected allocation failure (%s) fired in %s only: the twin's heap requests are not the wrapper's" % (o, "the C call" if aC[1] else "the C++ call"))
+        elif aC != aT and ts != "inv" and cs in (OKC if ts == "ok" else FAILC | {"void"}):
+            core.append({"alloc_sequences_differ": wname})
+        if aC[1]: core.append({"bad_alloc": wname})
     e = res.get("end")
     if e:
         # what the model's ledger holds when the script ends  vs  what the harness still finds in the C handles / result slots
@@ -372,6 +448,14 @@ def evaluate(ctx, exe, seqs, tag, timeout=900):
     return verdicts, aborts, results
 
 
+def abort_signature(a):
+    """abort:<op>:<kind>, with `:bad_alloc` appended when the dying call had an injected allocation failure"""
+    sig = "abort:%s:%s" % (a.get("op"), a.get("kind"))
+    seq, i = a.get("seq"), a.get("op_index")
+    if seq and i is not None and i < len(seq["ops"]) and any(x.startswith("A:") for x in seq["ops"][i].split()): sig += ":bad_alloc"
+    return sig
+
+
 def shrink(ctx, exe, seq, signature, budget=30):
     """greedy removal of ops while the same signature (or the same abort) reproduces"""
     cur = dict(seq); trials = 0
@@ -380,7 +464,7 @@ def shrink(ctx, exe, seq, signature, budget=30):
         # library, charged to whichever sequence first reaches it, does not)
         pre = [dict(cand, id="shr0")] if signature.startswith("leak:") else []
         v, ab, _ = evaluate(ctx, exe, pre + [cand], "shrink", timeout=120)
-        if signature.startswith("abort:"): return any(("abort:%s:%s" % (a.get("op"), a.get("kind"))) == signature for a in ab)
+        if signature.startswith("abort:"): return any(abort_signature(a) == signature for a in ab)
         return any(s == signature for s, _, _ in v.get(cand["id"], ([], [], []))[0])
     i = 0
     while i < len(cur["ops"]) and trials < budget:
@@ -416,7 +500,7 @@ def report_all(ctx, exe, seqs, verdicts, aborts, results, stats):
     for a in aborts:
         if a.get("seq") is None:
             ctx.tie_ok = False; ctx.broken.append({"kind": "harness died", "stderr": a["stderr"][-800:]}); continue
-        sig = "abort:%s:%s" % (a.get("op"), a.get("kind"))
+        sig = abort_signature(a)
         stats["aborts"] = stats.get("aborts", 0) + 1
         if sig in seen: continue
         seen.add(sig)
@@ -449,7 +533,12 @@ def report_all(ctx, exe, seqs, verdicts, aborts, results, stats):
         for t in tie:
             ctx.tie_ok = False
             if len(ctx.broken) < 6: ctx.broken.append({"kind": "model/implementation correspondence", "sequence": by_id[sid], "detail": t})
-        for c in core: stats["core_leak_sequences"] = stats.get("core_leak_sequences", 0) + 1
+        for c in core:
+            if "bytes" in c: stats["core_leak_sequences"] = stats.get("core_leak_sequences", 0) + 1
+            elif "bad_alloc" in c:
+                d = stats.setdefault("bad_alloc_injected_and_fired", {}); d[c["bad_alloc"]] = d.get(c["bad_alloc"], 0) + 1
+            else:
+                d = stats.setdefault("alloc_sequences_differ", {}); d[c["alloc_sequences_differ"]] = d.get(c["alloc_sequences_differ"], 0) + 1
 
 
 def run(ctx, only=None):
@@ -472,7 +561,8 @@ def run(ctx, only=None):
     ctx.coverage["grideval_on_object_without_data"] = "exercised (the core refuses it with an exception)" if eg else \
         "not exercised: photospline::splinetable<>::grideval reads through null arrays when the object holds no data (proposed fix: fixes/C18-6.diff)"
     gen = SeqGen(rnd, side, stats, eg)
-    seqs = only if only is not None else [gen.sequence("s%d" % k) for k in range(nseq)]
+    seqs = only if only is not None else [gen.sequence("s%d" % k) for k in range(nseq)] + sweep_sequences(rnd)
+    stats["sweep_sequences"] = len([q for q in seqs if q["id"].startswith("w")])
     modes = ["san"] if ctx.tier == "quick" else ["san", "shipped"]
     evals = 0; distinct = set(); kinds = {}; outcomes = {}
     for mode in modes:
@@ -499,6 +589,12 @@ def run(ctx, only=None):
     ctx.coverage["rule"] = ("op sequences drawn from VERIF_SEED by bin/props/C18.py (<= 30 ops, 1..3 handles, clean-up appended), executed by harness/c18_harness.cpp; "
                             "a call is non-trivial when the C++ operation failed/threw/was impossible or produced a value; distinct = distinct (wrapper, twin outcome, value, object digest)")
     ctx.coverage["input_distribution"] = {"sequences": len(seqs), "modes": modes, "calls_per_wrapper": kinds, "twin_outcomes": outcomes, **stats}
+    fired = stats.get("bad_alloc_injected_and_fired", {})
+    ctx.coverage["bad_alloc"] = {"calls_with_an_injected_request_index": stats.get("injected_calls", 0) * len(modes),
+                                 "calls_in_which_it_fired_per_wrapper": fired,
+                                 "rule": "`A:<k>`: the k-th operator-new request inside the C call throws std::bad_alloc, and the k-th request inside the twin's C++ call as well"}
+    if only is None and sum(fired.values()) < (150 if ctx.tier == "quick" else 600):
+        ctx.tie_ok = False; ctx.broken.append({"kind": "allocation-failure injection ineffective", "fired": fired})
     missing = sorted(set(side["wrappers"]) - set(kinds))
     ctx.coverage["wrappers_never_called"] = missing
     if missing and only is None:
@@ -508,7 +604,8 @@ def run(ctx, only=None):
         "behaviour classes of the C++ operations (canThrow / canFail in Model/CApi.lean) are read from the headers; the twin observes the actual outcome on every call",
         "operations whose C++ implementation has no defined behaviour on an object without data (evaluation, grid evaluation, the per-dimension getters) are only called on loaded tables; a crash that the C++ twin would reproduce identically through the C++ API belongs to C20/C07, not to the wrapper (a *leak* that the twin reproduces is reported: signature leak:c++-object)",
         "corrupt inputs are limited to non-FITS bytes, an empty file, a truncation inside the primary header and a truncation after the coefficient HDU (the reader fails after it has built part of the object); arbitrary corruption is C07",
-        "allocation failure (std::bad_alloc) is covered by the theorem (catch-all handler present), not by the differential run",
+        "allocation failure: std::bad_alloc is produced by the harness' replacement of the global operator new / new[] (the k-th request inside a call throws); failures of malloc inside cfitsio / SuiteSparse / the C fitter are not injected (they do not produce C++ exceptions)",
+        "the objects the model's C machine predicts behind the handles are compared by digest with the C side after every call; the semantics of the C++ operation itself is the twin's observation (outcome and digest), the theorem C18_refines holds for every semantics inside the behaviour classes",
     ]
 
 
